@@ -8,6 +8,19 @@ INT, FLT, BOOL, STR = "Int64", "Float64", "Bool", "String"
 STR_ALPHA = ["a", "b", "ab", "ba", "x", "xy", "", "a b", " a", "bb", "aa", "b%", "a_b", "b-", "zz"]
 
 
+def has_mean(e):
+    """does the expression contain `mean` (the only source of non-dyadic floats)?  Its result is compared as it is,
+    but is not fed into further arithmetic or ordering: engines round / render such values differently in the
+    last digits (outside the documented value domain; alarm of the first thorough run)"""
+    if isinstance(e, list):
+        if len(e) >= 2 and e[0] == "fn" and e[1] == "mean":
+            return True
+        return any(has_mean(x) for x in e)
+    if isinstance(e, dict):
+        return any(has_mean(x) for x in e.values())
+    return False
+
+
 def mentions_col(e) -> bool:
     if isinstance(e, list):
         if e and e[0] in ("col", "c"):
@@ -162,8 +175,16 @@ class Gen:
                     a = ["lit", 3]
                 return ["fn", k, [a]]
             if k in ("hmax", "hmin", "hsum"):
+                first = col_or(INT)
+                if k != "hsum":
+                    # finding F41 (third party): polars fails on horizontal max / min over broadcast scalars only;
+                    # one argument is an element-wise column
+                    ce = self.cols_of(st, INT, ("e",), False)
+                    first = self.ref(st, r.choice(ce)) if ce else ["fn", "add", [["lit", 1], ["lit", 1]]]
+                    if not ce:
+                        return ["fn", "add", [e(INT), e(INT)]]
                 return ["fn", {"hmax": "horizontal_max", "hmin": "horizontal_min", "hsum": "horizontal_sum"}[k],
-                        [col_or(INT)] + [e(INT) for _ in range(r.randint(1, 2))]]
+                        [first] + [e(INT) for _ in range(r.randint(1, 2))]]
             if k == "coalesce":
                 return ["fn", "coalesce", [col_or(INT), e(INT)] + ([e(INT)] if r.random() < 0.3 else [])]
             if k == "fill_null":
@@ -274,7 +295,7 @@ class Gen:
         """Sort keys that are total on the rows: some keys + the unique key as tie-breaker."""
         r = self.r
         keys = []
-        cands = [c for c in st.vis + st.hidden if c.ty in (INT, STR, BOOL, FLT) and c.kind != "k"]   # F19: no constants
+        cands = [c for c in st.vis + st.hidden if c.ty in (INT, STR, BOOL, FLT) and c.kind not in ("k", "x")]   # F19: no constants; no non-dyadic floats
         for _ in range(r.randint(0, extra)):
             if cands:
                 keys.append(self.order(st, r.choice(cands)))
@@ -415,7 +436,7 @@ class Gen:
                 if r.random() < self.p["window"]:
                     e = self.agg_expr(st, ty, True)
                     kind = "w"
-                    if e is not None and r.random() < 0.3 and ty in (INT, FLT):
+                    if e is not None and r.random() < 0.3 and ty in (INT, FLT) and not has_mean(e):
                         e = ["fn", "add", [e, self.expr(st, ty, 1, ("e",))]]
                 else:
                     e = self.expr(st, ty, self.p["depth"])
@@ -425,6 +446,8 @@ class Gen:
                     e = ["lit", -e[1]]      # finding #21: `- -7` renders as an SQL comment
                 if not mentions_col(e):
                     kind = "k"      # constant column: const-typed, not referenced again
+                if has_mean(e):
+                    kind = "x"      # non-dyadic float: compared as it is, not referenced again
                 seen.add(name)
                 defs.append((name, ty, e, kind))
             if not defs:
@@ -541,8 +564,10 @@ class Gen:
                 e = self.agg_expr(st, ty, False)
                 if e is None:
                     continue
-                if r.random() < 0.25 and ty in (INT, FLT):
-                    e = ["fn", r.choice(["add", "mul"]), [e, self.agg_expr(st, ty, False) if r.random() < 0.5 else self.lit(ty)]]
+                if r.random() < 0.25 and ty in (INT, FLT) and not has_mean(e):
+                    e2 = self.agg_expr(st, ty, False) if r.random() < 0.5 else self.lit(ty)
+                    if e2 is not None and not has_mean(e2):
+                        e = ["fn", r.choice(["add", "mul"]), [e, e2]]
                 name = self.fresh_name(st, allow_overwrite=r.random() < 0.15)
                 if st.group and r.random() < self.p.get("overwrite_group", 0.0):
                     name = r.choice(st.group)
@@ -558,7 +583,7 @@ class Gen:
             st.hidden = []
             st.vis = newvis
             for name, ty, e in defs:
-                st.vis.append(Col(name, ty, ["col", nxt, name], True, "a"))
+                st.vis.append(Col(name, ty, ["col", nxt, name], True, "x" if has_mean(e) else "a"))
             st.uniq = list(newvis) if len(newvis) == len(gcols) and gcols else ([] if not gcols else None)
             st.computed = True
             st.ug_aggs = None if gcols else {n for n, _, _ in defs}
@@ -575,7 +600,7 @@ class Gen:
                 st.hidden = []
                 for c in st.vis:
                     c.ref = ["col", nxt, c.name]
-                    c.kind = "e" if c.kind in ("w", "a") else c.kind
+                    c.kind = "e" if c.kind in ("w", "a") else c.kind       # "k" and "x" stay
                 if st.uniq is not None and not all(any(v is c for v in st.vis) for c in st.uniq):
                     st.uniq = None
                 st.has_window_col = False
